@@ -82,6 +82,7 @@ PROPS = {
                       {"engine": "e2e", "race": True, "test": "TestVF_C16_DBus", "quick": (2, 15), "thorough": (8, 150), "shrinktime": "15s", "quick_timeout": 600}]},
     "C17": {"level": "exploration", "assumptions": MP_ASSUME,
             "parts": [{"engine": "mp", "test": "TestVF_C17", "quick": (4, 2500), "thorough": (16, 25000)},
+                      {"engine": "mp", "test": "TestVF_C17_HugeFiles", "quick": (2, 3), "thorough": (8, 12), "shrinktime": "5s"},
                       {"engine": "e2e", "test": "TestVF_C17_E2E", "quick": (4, 40), "thorough": (16, 250), "shrinktime": "10s"}]},
     "C18": {"level": "exploration", "assumptions": BASE_ASSUME + ["the harness does not own the scheduler: relative speeds of reader and writer are perturbed through GOMAXPROCS, CPU-burning goroutines, sender pacing and chunking; the race detector reports races on executions that occur", "one connection per output directory (file names have one-second resolution)"],
             "parts": [{"engine": "tw", "race": True, "test": "TestVF_C18", "quick": (8, 16), "thorough": (16, 120), "shrinktime": "15s", "quick_timeout": 600},
